@@ -25,11 +25,14 @@ pub struct CrashOracle {
 	any_closed: bool,
 	/// the scenario itself force-closes a channel (user request): errors / closures are expected
 	pub user_close: bool,
+	/// when set, only closures of (and errors on) these channels are expected; any other channel closing
+	/// without a stale-manager restart is judged
+	pub user_closed_chans: Option<BTreeSet<ChannelId>>,
 }
 
 impl CrashOracle {
 	pub fn new(chans: Vec<ChanInfo>) -> Self {
-		CrashOracle { chans, expected_outdated: BTreeSet::new(), seen_outdated: BTreeSet::new(), restarted: BTreeSet::new(), any_closed: false, user_close: false }
+		CrashOracle { chans, expected_outdated: BTreeSet::new(), seen_outdated: BTreeSet::new(), restarted: BTreeSet::new(), any_closed: false, user_close: false, user_closed_chans: None }
 	}
 }
 
@@ -60,6 +63,10 @@ impl Oracle for CrashOracle {
 				},
 				Obs::Event { node, ev: Event::ChannelClosed { channel_id, reason, .. } } => {
 					self.any_closed = true;
+					let user_close = match &self.user_closed_chans {
+						Some(set) => set.contains(channel_id),
+						None => self.user_close,
+					};
 					match reason {
 						ClosureReason::OutdatedChannelManager => {
 							self.seen_outdated.insert((*node, *channel_id));
@@ -73,19 +80,23 @@ impl Oracle for CrashOracle {
 						ClosureReason::CounterpartyForceClosed { .. }
 						| ClosureReason::CommitmentTxConfirmed
 						| ClosureReason::HolderForceClosed { .. } => {
-							if self.expected_outdated.is_empty() && !self.user_close {
+							if self.expected_outdated.is_empty() && !user_close {
 								return Err(Failure::new("restart", format!("node {} closed a channel ({:?}) although no restart required it", node, reason)));
 							}
 						},
 						other => {
-							if self.expected_outdated.is_empty() && !self.user_close {
+							if self.expected_outdated.is_empty() && !user_close {
 								return Err(Failure::new("restart", format!("node {} closed a channel: {:?}", node, other)));
 							}
 						},
 					}
 				},
 				Obs::Sent { from, wire: Wire::Error(m), .. } => {
-					if self.expected_outdated.is_empty() && !self.user_close {
+					let user_close = match &self.user_closed_chans {
+						Some(set) => set.contains(&m.channel_id),
+						None => self.user_close,
+					};
+					if self.expected_outdated.is_empty() && !user_close {
 						return Err(Failure::new("restart", format!("node {} sent an error although every monitor matched its manager: {}", from, m.data)));
 					}
 				},
@@ -160,21 +171,40 @@ pub struct C10Scn {
 	pub async_from_start: Vec<usize>,
 }
 
+/// A = B (two parallel channels 0 and 1), B – C (2), B – D (3): a forwarder with two channels to the
+/// same upstream peer and two downstream peers.
+fn fork_world(ct: Ct) -> (World, Vec<ChannelId>) {
+	let mut w = World::new((0..4).map(|_| crate::checks::c01::user_config(ct)).collect(), 253);
+	let mut chans = Vec::new();
+	for (a, b) in [(0usize, 1usize), (0, 1), (1, 2), (1, 3)] {
+		chans.push(w.open_channel(a, b, 1_000_000, 400_000_000));
+	}
+	if ct != Ct::Static {
+		w.fund_wallets();
+	}
+	(w, chans)
+}
+
 pub fn build(s: &C10Scn) -> WorldSys {
-	let (w, chans) = line_world(s.ct, s.nodes, &s.async_from_start);
+	let (w, chans) = if s.name.contains("-fork-") { fork_world(s.ct) } else { line_world(s.ct, s.nodes, &s.async_from_start) };
 	let infos = chan_infos(&w, &chans);
 	let po = PersistOrderOracle::new(&w, infos.clone());
 	let rev = RevocationOracle::new(&w, infos.clone());
 	let mut sys = WorldSys::new(w, chans, s.ops.clone());
 	// scenarios with a held payment issue their operations one after the other, each at quiescence
-	sys.ops_first = !s.ops.iter().any(|o| matches!(o, Op::ClaimHeld { .. }));
+	sys.ops_first = !s.ops.iter().any(|o| matches!(o, Op::ClaimHeld { .. } | Op::ForceClose { .. }));
 	sys.dev = s.dev.clone();
 	sys.crash_nodes = s.crash_nodes.clone();
 	sys.settle_on_chain = true;
 	for i in s.async_from_start.iter() {
 		sys.async_on[*i] = true;
 	}
-	sys.oracles.push(Box::new(CrashOracle::new(infos.clone())));
+	let mut co = CrashOracle::new(infos.clone());
+	let closed: BTreeSet<ChannelId> = s.ops.iter().filter_map(|o| match o { Op::ForceClose { chan, .. } => Some(sys.chans[*chan]), _ => None }).collect();
+	if !closed.is_empty() {
+		co.user_closed_chans = Some(closed);
+	}
+	sys.oracles.push(Box::new(co));
 	sys.oracles.push(Box::new(po));
 	sys.oracles.push(Box::new(CommitmentOracle::new(infos)));
 	sys.oracles.push(Box::new(rev));
@@ -278,6 +308,23 @@ pub fn scenarios(tier: Tier) -> Vec<C10Scn> {
 				async_from_start: vec![],
 			});
 		}
+		// a forwarder with two channels to the same upstream peer: an HTLC from the first is stuck in a
+		// downstream channel the forwarder closed, then a second HTLC (same per-channel id) arrives over the
+		// other upstream channel and is forwarded elsewhere; the forwarder crashes at every point of that
+		v.push(C10Scn {
+			name: format!("{}-fork-closed-downstream-then-forward", n),
+			ct,
+			nodes: 4,
+			ops: vec![
+				Op::Send { from: 0, hops: vec![(1, 0), (2, 2)], amount_msat: 50_000_000, policy: ClaimPolicy::Hold },
+				Op::ForceClose { node: 1, chan: 2 },
+				Op::Send { from: 0, hops: vec![(1, 1), (3, 3)], amount_msat: 30_000_000, policy: ClaimPolicy::Claim },
+			],
+			dev: Deviations { reorder: None, early_op: None, crash: Some(1), crash_inside: if th { Some(1) } else { None }, complete_reorder: None, ..Deviations::default() },
+			k: 1,
+			crash_nodes: vec![1],
+			async_from_start: vec![],
+		});
 		// asynchronous writes in flight at the crash: every candidate snapshot
 		v.push(C10Scn {
 			name: format!("{}-abc-claim-async-b", n),
